@@ -20,6 +20,12 @@ type lineLimitReader struct {
 	// rest is what has been read from R but not handed out yet, because
 	// that would have gone beyond LineLimit.
 	rest []byte
+
+	// err is the error of a failed read of R, returned again by every later
+	// Read. After a failed read (a timeout in particular) what arrives next
+	// cannot be placed in the protocol any more - it may be the rest of a
+	// message that was given up - so nothing further is read.
+	err error
 }
 
 func (r *lineLimitReader) Read(b []byte) (int, error) {
@@ -32,9 +38,13 @@ func (r *lineLimitReader) Read(b []byte) (int, error) {
 		n = copy(b, r.rest)
 		r.rest = r.rest[n:]
 	} else {
+		if r.err != nil {
+			return 0, r.err
+		}
 		var err error
 		n, err = r.R.Read(b)
 		if err != nil {
+			r.err = err
 			return n, err
 		}
 	}
